@@ -149,11 +149,13 @@ func autoDiscover(ctx context.Context, params discoverParams) []dsModels.Discove
 
 	go func() {
 		var wgIPGenerators sync.WaitGroup
+	launch:
 		for _, ipnet := range ipnets {
 			select {
 			case <-ctx.Done():
-				// quit early if we have been cancelled
-				return
+				// stop launching generators if we have been cancelled; the channels
+				// below still have to be closed for the enclosing function to return
+				break launch
 			default:
 			}
 
